@@ -115,7 +115,7 @@ def gen_spine(cmp_: ast.AST, ex: ast.AST, ad: ast.AST) -> str:
               "return eval_func"]:
         raise TranslateError(f"_compile_cached: {cc}")
     gv = [_u(s) for s in _strip(find_func(ex, "get_all_variables").body)]
-    if gv != ["depth = _estimate_tree_depth(expr)", "if depth < _RECURSION_THRESHOLD:\n    return expr.get_variables()",
+    if gv != ["depth = _estimate_tree_depth(expr)", "if depth < _RECURSION_THRESHOLD:\n    try:\n        return expr.get_variables()\n    except RecursionError:\n        pass",
               "return _get_variables_iterative(expr)"]:
         raise TranslateError(f"get_all_variables: {gv}")
     out += ["/-- `_compile_cached`: the explicit-stack builder is used iff `depth >= _RECURSION_THRESHOLD` -/",
